@@ -167,6 +167,10 @@ def gen_plan(prop, tier, rng, i):
         # started, replays the files that exist (start()) and receives all events delivered so far again
         plan["mirror_crash"] = {"round": rng.randrange(0, nrounds), "op": rng.randrange(0, 40)}
     if rng.random() < 0.3:
+        # the destination already holds files under some of the names that are about to be mirrored (left by an
+        # earlier mirror of a recording that has since been redone): same size or shorter, other content, older
+        plan["stale_dest"] = {"salt": rng.randrange(3), "kind": rng.choice(["same_size", "same_size", "shorter"])}
+    if rng.random() < 0.3:
         cfg = state[0]["cfg"]
         files = state[0]["model"].files()
         if files:
@@ -406,6 +410,9 @@ def run_plan(prop, plan):
             if _is_rf(rel):
                 if rel not in src_final:
                     viol("dest_file_unknown", "destination has %s which is not a finalized source file" % rel)
+                elif rel in stale and (phase[0] in ("mirror", "after_kill") or rel in failed_publish or crashed[0]) \
+                        and K.file_sha(p) == stale[rel]:
+                    pass  # the planted stale file, not yet replaced
                 elif K.file_sha(p) != src_final[rel]:
                     viol("dest_file_partial", "destination %s differs from the finalized source file (next op: %s)" % (
                         rel, op.sig() if op else "-"), exdev=plan["exdev"])
@@ -423,6 +430,34 @@ def run_plan(prop, plan):
             if not ok:
                 viol("rf_file_lost", "no intact copy of %s in source or destination (next op: %s)" % (
                     rel, op.sig() if op else "-"), exdev=plan["exdev"])
+
+    stale = {}   # rel -> sha of the planted stale destination file
+
+    def plant_stale(r):
+        import zlib
+
+        sd = plan.get("stale_dest")
+        if not sd or r >= len(plan["rounds"]):
+            return
+        for e in plan["rounds"][r]["events"]:
+            rel = e.get("q", e["p"])
+            if not _is_rf(rel) or rel in stale or rel not in src_final or not selected(rel):
+                continue
+            sp, dp = os.path.join(src, rel), os.path.join(dest, rel)
+            if not os.path.exists(sp) or os.path.lexists(dp) or (zlib.crc32(rel.encode()) + sd["salt"]) % 3:
+                continue
+            data = bytearray(open(sp, "rb").read())
+            for j in range(len(data) - 1, max(0, len(data) - 1 - max(8, len(data) // 4)), -1):
+                data[j] ^= 0x5A
+            if sd["kind"] == "shorter":
+                data = data[: max(1, len(data) // 2)]
+            os.makedirs(os.path.dirname(dp), exist_ok=True)
+            with open(dp, "wb") as f:
+                f.write(bytes(data))
+            st = os.stat(sp)
+            os.utime(dp, ns=(st.st_atime_ns - 10**12, st.st_mtime_ns - 10**12))
+            stale[rel] = K.file_sha(dp)
+            res.fault("stale_destination_file_" + sd["kind"])
 
     crash = plan.get("mirror_crash")
     crashed = [False]
@@ -466,6 +501,8 @@ def run_plan(prop, plan):
                 if ev.kind == "sync":
                     if ev.p1 in ("mirror", "end"):
                         snapshot_versions()
+                    if ev.p1 == "mirror" and not crashed[0]:
+                        plant_stale(phase[1])
                     if ev.p1 == "end":
                         check_boundary(None)
                     node.go()
@@ -590,7 +627,10 @@ def run_plan(prop, plan):
                 if mds and mds[-1] not in sfiles:
                     viol("newest_metadata_removed", "newest metadata file %s is gone from the source" % mds[-1])
         # reader on the destination == the RF files that were mirrored
-        if plan["include_drf"] and any(_is_rf(r) for r in dfiles):
+        stale_left = [r for r in stale if r in dfiles and K.file_sha(dfiles[r]) == stale[r]]
+        if stale_left:
+            res.probe("stale_destination_kept_after_failed_publish")
+        elif plan["include_drf"] and any(_is_rf(r) for r in dfiles):
             _reader_check(plan, dest, dfiles, src_final, viol, res)
         nrf = len([r for r in want if _is_rf(r)])
         res.stats["rf_files_mirrored"] = nrf
